@@ -29,6 +29,8 @@ def solver_check(fn):
         R.add(grid_obs(SA))
         R.add(dtype_obs(SA))
         R.add(index_obs(SA))
+        R.add(argument_obs(SA))
+        R.add(layout_obs(SA))
         # the solver rules are decided for one solve in a fresh process; they hold for every call only if a solve
         # cannot observe an earlier one (module-level state on the solve path: R-STATE / R-MEMO, shared with C12)
         import props_state as ps
@@ -57,6 +59,48 @@ def dtype_obs(SA):
     if not seen:
         return [req_ob("R-DTYPE", site, "no computed value is stored into storage typed by a caller's array (integer grids, profiles and sources are not truncated) (%d paths)" % n, True)]
     return [req_ob("R-DTYPE", site, "no computed value is stored into storage typed by a caller's array", False, detail="%s: %s" % k, key={"where": k[0]}) for k in sorted(seen)]
+
+
+def argument_obs(SA):
+    """R-ARGS: the solver does not modify the arrays it is given (a stored-into or in-place updated argument changes the
+    caller's data, so the next solve with 'the same' inputs is a different request)"""
+    seen = {}
+    n = 0
+    for key, (S, res) in SA.runs.items():
+        for r in res:
+            n += 1
+            for e in r.events:
+                if e[0] == "param-mutation":
+                    seen.setdefault((e[1], e[2]), key)
+    site = "src/bldfm/solver.py::steady_state_transport_solver and callees"
+    if not seen:
+        return [req_ob("R-ARGS", site, "no argument array is stored into or updated in place (%d paths)" % n, True)]
+    return [req_ob("R-ARGS", site, "no argument array is stored into or updated in place", False, detail="%s: %s" % k, key={"where": k[0]}) for k in sorted(seen)]
+
+
+def layout_obs(SA):
+    """R-LAYOUT: on every returning path of every run - all clamp outcomes included, also those a rule's representative path
+    does not take - the Fourier-layout typestate (natural / centred order, symmetric truncation window, re-padding, shapes of
+    elementwise operands) is consistent.  E.g. `fftshift` where `ifftshift` is meant differs only for odd sizes, which arise
+    only on the clamped paths."""
+    seen = {}
+    n = 0
+    for key, (S, res) in SA.runs.items():
+        for r in res:
+            if r.kind != "return":
+                continue
+            n += 1
+            for e in r.events:
+                if e[0] in ("typestate", "shape"):
+                    seen.setdefault((e[1], str(e[2])), (key, r))
+    site = "src/bldfm/solver.py::steady_state_transport_solver (every returning path)"
+    if not seen:
+        return [req_ob("R-LAYOUT", site, "Fourier layout, truncation window, re-padding and operand shapes are consistent on every returning path (%d paths)" % n, True)]
+    out = []
+    for (where, what), (key, r) in sorted(seen.items())[:6]:
+        out.append(req_ob("R-LAYOUT", site, "Fourier layout, truncation window, re-padding and operand shapes are consistent on every returning path", False,
+                          detail="%s: %s (footprint=%s analytic=%s %s mode; path %s)" % (where, what, key[0], key[1], key[2], [(d[:50], b) for d, b in r.path][:5]), key={"where": where}))
+    return out
 
 
 def index_obs(SA):
